@@ -132,5 +132,8 @@ func (w *warrior) Queue() []Address {
 }
 
 func (w *warrior) NextPC() (Address, error) {
+	if w.pq == nil {
+		return 0, fmt.Errorf("warrior has not been spawned")
+	}
 	return w.pq.Next()
 }
